@@ -41,6 +41,8 @@ ASSUMPTIONS = [
     "categories whose mean chance categorical disorder is 0 are skipped for gamma-k (value undefined by the statement)",
     "the two special values for alignments without co-aligned real pairs are taken from tests/test_edge_case.py",
     "the per-pair formula is decided by workload variety, not by schedule search",
+    "the dissimilarity-sweep history can only expose identity-keyed caches when CPython re-uses the address of a dropped object; "
+    "that is allocator behaviour the simulator does not control (counter nondet_sweep_address_reused reports how often it happened)",
 ]
 COMPONENTS = {"real": common.REAL_COMPONENTS, "stub": common.STUB_COMPONENTS}
 ABSENT = "zz_absent"
@@ -198,7 +200,8 @@ def run(case):
             d2 = pa.CombinedCategoricalDissimilarity(alpha=alpha, beta=beta_, delta_empty=de_,
                                                      pos_dissim=base.positional_dissim, cat_dissim=base.categorical_dissim)
             if id(d2) in seen_ids:
-                stats["sweep_address_reused"] = stats.get("sweep_address_reused", 0) + 1
+                # (allocator behaviour, not under the simulator's control: reported, excluded from the event digest)
+                stats["nondet_sweep_address_reused"] = stats.get("nondet_sweep_address_reused", 0) + 1
             seen_ids.add(id(d2))
             per = []
             for name, al in alignments[:len(g.chance_alignments) + 1]:
